@@ -66,6 +66,8 @@ type TunnelServer struct {
 	sshConn        *ssh.ServerConn
 	sc             *ssh.ServerConfig
 	firstChannel   ssh.Channel
+	// firstChannelMu guards firstChannel: every channel of the connection is handled by a goroutine of its own
+	firstChannelMu sync.Mutex
 
 	vc                 *virtual.Client
 	peerServerListener *netpkg.InternalListener
@@ -184,10 +186,13 @@ func (s *TunnelServer) Run() error {
 }
 
 func (s *TunnelServer) writeToClient(data string) {
-	if s.firstChannel == nil {
+	s.firstChannelMu.Lock()
+	ch := s.firstChannel
+	s.firstChannelMu.Unlock()
+	if ch == nil {
 		return
 	}
-	_, _ = s.firstChannel.Write([]byte(data + "\n"))
+	_, _ = ch.Write([]byte(data + "\n"))
 }
 
 func (s *TunnelServer) waitForwardAddrAndExtraPayload(
@@ -297,9 +302,11 @@ func (s *TunnelServer) handleNewChannel(channel ssh.NewChannel, extraPayloadCh c
 	if err != nil {
 		return
 	}
+	s.firstChannelMu.Lock()
 	if s.firstChannel == nil {
 		s.firstChannel = ch
 	}
+	s.firstChannelMu.Unlock()
 	go s.keepAlive(ch)
 
 	for req := range reqs {
